@@ -8,6 +8,7 @@ import Pushr.Spec.C07
 import Pushr.Spec.C08
 import Pushr.Spec.C09
 import Pushr.ListRec
+import Pushr.Spec.C15
 /-! `exec` / `step` requests: one observed transition of the real interpreter state. -/
 open Pushr Codec
 
@@ -236,9 +237,21 @@ def c19Eval : PropEval := fun i pre post =>
      | _, _ => none)
   | _, _ => none
 
+/-- C15: one step may grow the state only by a modest function of its size -/
+def c15Eval : PropEval := fun i pre post =>
+  match post with
+  | some post =>
+    let w := C15.weight pre
+    let w' := C15.weight post
+    if w' ≤ C15.growthBound i w then none
+    else if C15.sizeOperand i then
+      some ("[K05] the work of " ++ i.str ++ " is sized by an INTEGER operand: state weight " ++ toString w ++ " -> " ++ toString w')
+    else some ("state weight " ++ toString w ++ " -> " ++ toString w' ++ " in one step")
+  | none => none
+
 def propEvals : List (String × PropEval) :=
   [("C01", panicFree), ("C04", c04Eval), ("C05", c05Eval), ("C06", c06Eval), ("C07", c07Eval), ("C08", c08Eval),
-   ("C09", c09Eval), ("C19", c19Eval)]
+   ("C09", c09Eval), ("C19", c19Eval), ("C15", c15Eval)]
 
 /-- instruction names in the scope of a property's single-instruction scenario -/
 def scopeOf (pid : String) : List Instr :=
@@ -293,6 +306,25 @@ def decObs (post : Sx) : Option (Option State) :=
   match post with
   | .atom "PANIC" => some none
   | p => (decState p).map some
+
+/-- `( growth PRE STEPS FINAL NEXTID )`: a program stepped STEPS times; no CODE / EXEC item may exceed
+the configured maximum number of points in a program -/
+def handleGrowth : List Sx → String
+  | [pre, n, fin, nid] =>
+    match decState pre, decNat n, decObs fin, decNat nid with
+    | some pre, some n, some obs, some nid =>
+      let pre := { pre with nextId := nid }
+      let m := stepN fullExt zeroOracle n pre
+      (match obs with
+       | none => "no MISMATCH model= (no panic) PROPFAIL C01 implementation panicked"
+       | some o =>
+         let mm := if encState m == encState o then "" else " MISMATCH model= " ++ encState m
+         let lim := pre.cfg.maxPointsProg.toInt.toNat
+         let pf := if C15.maxItem o ≤ lim then ""
+           else " PROPFAIL C15 [K06] an item with " ++ toString (C15.maxItem o) ++ " points after " ++ toString n ++ " steps; max_points_in_program = " ++ toString lim
+         if mm == "" && pf == "" then "ok N" else "no" ++ mm ++ pf)
+    | _, _, _, _ => "bad state"
+  | _ => "bad shape"
 
 /-- `( exec NAME PRE POST|PANIC NEXTID )` -/
 def handleExec : List Sx → String
